@@ -110,9 +110,9 @@ func TestVerifC07(t *testing.T) {
 
 // C08 foreign keys: all modes, concurrent source inserts vs target deletes
 func TestVerifC08(t *testing.T) {
-	vfRunHistories(t, "C08", 240, 5000, func(i int, r func(int) int) vfProfile {
+	vfRunHistories(t, "C08", 360, 6000, func(i int, r func(int) int) vfProfile {
 		return vfProfile{workers: 1 + r(8), txns: 6 + r(8), keys: 4 + r(6), fkMode: byte([]byte{schema.Block, schema.Cascade, schema.CascadeUpdates}[i%3]),
-			persistMs: 1 + r(5), gates: r(2) == 0, readers: 1, maxOps: 3 + r(5), abortPct: 5, yieldPct: 30}
+			persistMs: 1 + r(5), gates: r(2) == 0, readers: 1, maxOps: 3 + r(5), abortPct: 5, yieldPct: 30, fkFocus: i%2 == 0}
 	})
 }
 
